@@ -23,7 +23,6 @@ Definition Inv (s : st) : Prop :=
   (rw_done s = true -> gk s = true) /\
   (unreaped (mainpc s) = true -> reaped s = false) /\
   (unreaped (mainpc s) = false -> reaped s = true) /\
-  (w_done s = true -> gk s = true) /\
   (gk s = true -> no_ingroup_alive (tbl s) = true) /\
   leaders_in (tbl s) = true /\
   tbl_ok (tbl s) = true /\
@@ -32,15 +31,14 @@ Definition Inv (s : st) : Prop :=
 Lemma inv_init : forall sm km t, Inv (init sm km t).
 Proof. intros; unfold Inv; simpl; repeat split; intros; try discriminate; auto. Qed.
 
-Lemma step_modes : forall s l s', step s l = Some s' -> smode s' = smode s /\ kmode s' = kmode s /\ prog s' = prog s.
-Proof.
-  intros s l s' H. destruct l; simpl in H;
-    unfold main_step, user_step, mon_step, stop_step, watch_step, runwatch_step, proc_step in H;
-    crush_step; simpl; auto.
-Qed.
+(* replace the facts about the source by their values, and reduce *)
+Ltac use_facts_with P H :=
+  destruct P as (Hkw & Hrw & Hpk & Hsk & Hcl & Hsr & Hsc & Hel & Hef & Hms);
+  rewrite ?Hkw, ?Hrw, ?Hpk, ?Hsk, ?Hcl, ?Hsr, ?Hsc, ?Hel, ?Hef, ?Hms in H; cbn [negb] in H;
+  rewrite ?orb_false_r, ?orb_true_l, ?andb_true_l, ?andb_true_r in H; cbv iota in H.
 
 Ltac tbl_facts :=
-  eauto using kill_group_no_ingroup, pstep_no_ingroup, term_leader_no_ingroup, pstep_leaders_in,
+  eauto using kill_leader_leaders_in, kill_leader_no_ingroup, kill_leader_tbl_ok, kill_group_no_ingroup, pstep_no_ingroup, term_leader_no_ingroup, pstep_leaders_in,
     kill_group_leaders_in, term_leader_leaders_in, pstep_tbl_ok, kill_group_tbl_ok, term_leader_tbl_ok, root_tbl_ok.
 
 Ltac inv_solve :=
@@ -52,19 +50,39 @@ Ltac inv_solve :=
   try (match goal with |- context [root_proc ?t] => destruct t; reflexivity end);
   try solve [exfalso; match goal with x : st |- _ => destruct (mainpc x) eqn:?; simpl in *; intuition (try congruence; try discriminate) end].
 
+Section WithFacts.
+Variable F : facts.
+Hypothesis HF : facts_ok F = true.
+Local Notation step := (step F).
+
+Lemma facts_all : kill_works F = true /\ run_watches F = true /\ run_postkill F = true /\ stop_kills_before_wait F = true /\
+  cancel_lockfree F = true /\ stop_rechecks F = true /\ stop_clears_running F = true /\ exec_holds_lock F = true /\
+  exec_flags F = true /\ mon_stops F = true.
+Proof. pose proof HF as H0. unfold facts_ok in H0. do 9 (apply andb_true_iff in H0; destruct H0 as [H0 ?]). repeat split; assumption. Qed.
+
+Lemma step_modes : forall s l s', step s l = Some s' -> smode s' = smode s /\ kmode s' = kmode s /\ prog s' = prog s.
+Proof.
+  intros s l s' H. destruct l; simpl in H;
+    unfold main_step, user_step, mon_step, stop_step, watch_step, runwatch_step, proc_step, gkill in H;
+    crush_head; simpl; auto;
+    repeat match goal with |- context [if ?b then _ else _] => destruct b; simpl end; auto.
+Qed.
+
 Lemma inv_step : forall s l s', executes s = true -> ctxk (kmode s) = true -> no_outside_holder (prog s) = true ->
   Inv s -> step s l = Some s' -> Inv s'.
 Proof.
   intros s l s' He Hk Hok I H. pose proof (root_tbl_ok _ Hok) as Hroot.
-  destruct I as (I1 & I2 & I3 & I4 & I5 & I6 & I7 & I8 & I9 & I10 & I11 & I12 & I13 & I15 & I14).
+  destruct I as (I1 & I2 & I3 & I4 & I5 & I6 & I7 & I8 & I9 & I10 & I12 & I13 & I15 & I14).
   unfold is_on in *.
   destruct l; simpl in H;
-    unfold main_step, user_step, mon_step, stop_step, watch_step, runwatch_step, proc_step, mu_free, is_on in H.
-  - crush_head; try (destruct (ctx_done s) eqn:?); inv_solve.
+    unfold main_step, user_step, mon_step, stop_step, watch_step, runwatch_step, proc_step, mu_free, is_on, gkill in H;
+    use_facts_with facts_all H.
+  - crush_head; try (destruct (ctx_done s) eqn:?); try (destruct (executes s) eqn:?); inv_solve.
   - crush_head; inv_solve.
   - crush_head; inv_solve.
-  - crush_head; inv_solve.
+  - crush_head; try (destruct (cancel_group F) eqn:?); inv_solve.
   - crush_head; inv_solve.
   - destruct (pstep i (tbl s)) eqn:E; [|discriminate]. inversion H; subst. inv_solve.
 Qed.
 
+End WithFacts.
